@@ -74,7 +74,7 @@ def requests():
     R["r13"] = dict(R["r0"], footprint=True, meas_pt=(0.0, 0.0))
     R["r14"] = dict(R["r4"], footprint=True)
     # the same numbers as r4 / r5 given as integers, lists and numpy integers: a pure function of the argument VALUES
-    R["r15"] = dict(R["r4"], domain=(100, 112), levels=[np.int64(2), np.int32(8)], modes=[6, 8], halo=0, meas_pt=(30, 48), srf_bg_conc=1.5)
+    R["r15"] = dict(R["r4"], domain=(100, 112), levels=[np.int64(2), np.int64(8)], modes=[6, 8], halo=0, meas_pt=(30, 48), srf_bg_conc=1.5)
     R["r16"] = dict(R["r5"], domain=[320, 256], levels=np.array([10, 3, 17], dtype=np.int32), modes=(np.int64(40), np.int64(40)), halo=40, meas_pt=(160, 128))
     return R
 
